@@ -341,7 +341,7 @@ Lemma resolve_oinv body : forall st st' r, OInv st -> resolve st body = (st', r)
 Proof.
   induction body as [|[slot f] rest IH]; intros st st' r H; cbn [resolve].
   - intro E; inversion E; subst; exact H.
-  - destruct (slot_master st slot) as [addr|]; [|intro E; inversion E; subst; exact H].
+  - destruct f as [addr|]; [|intro E; inversion E; subst; exact H].
     destruct (find_pool st addr) as [p|]; [|intro E; inversion E; subst; exact H].
     destruct (pool_get st p) as [st1 [s|]] eqn:Eg; pose proof (pool_get_oinv _ _ _ _ H Eg) as H1.
     + destruct (resolve st1 rest) as [st2 [l|e]] eqn:Er; pose proof (IH _ _ _ H1 Er) as H2; intro E; inversion E; subst; exact H2.
@@ -406,10 +406,10 @@ Proof.
   - destruct (cf_password (cfg st)); [eapply OInv_rel; [exact HW | apply rel_local_reply | exact H]|].
     destruct (cm_body m) as [|[s0 f0] body]; [exact H|].
     destruct (beqb _ _); (eapply OInv_rel; [exact HW | apply rel_local_reply | exact H]).
-  - destruct (resolve st (by_slot (cm_body m))) as [st1 [targets|e]] eqn:Er.
+  - destruct (resolve st (route_plan st (cm_type m) (by_slot (cm_body m)))) as [st1 [targets|e]] eqn:Er.
     2:{ eapply OInv_rel; [exact HW | apply rel_local_reply | exact H]. }
     pose proof (resolve_oinv _ _ _ _ H Er) as H1. destruct (resolve_winv _ _ _ _ HW Er) as (W1 & _).
-    pose proof (same_cm_resolve (by_slot (cm_body m)) st) as Hcm. rewrite Er in Hcm. cbn [fst] in Hcm. destruct Hcm as (Ecl & _ & _).
+    pose proof (same_cm_resolve (route_plan st (cm_type m) (by_slot (cm_body m))) st) as Hcm. rewrite Er in Hcm. cbn [fst] in Hcm. destruct Hcm as (Ecl & _ & _).
     assert (Hc1 : lookup c (clients st1) = Some cl) by (rewrite Ecl; exact Hc). rewrite Hc1.
     set (mid := next_mid st1).
     match goal with |- context [set_msg st1 mid ?x] => set (pm := x) end.
@@ -666,7 +666,7 @@ Qed.
 Theorem step_ow st e st' : OW st -> step st e = ROk st' -> OW st'.
 Proof.
   intros [HW H] E. split; [eapply step_winv; eassumption|]. revert E.
-  destruct e as [c adm|c b totals|order|s b|c|s| |s|nodes newslots]; cbn [step].
+  destruct e as [c adm|c b totals|order|s b|c|s| |s|nodes newslots|ch]; cbn [step].
   - destruct (lookup c (clients st)) eqn:Ec; intro E; apply ROk_inj in E; subst st'; [exact H|].
     apply (OInv_rel st); [exact HW | | exact H]. apply rel_set_client. intros cl0 E0. congruence.
   - intro E; apply ROk_inj in E; subst st'. apply ensure_dials_ow. unfold client_data.
@@ -685,6 +685,7 @@ Proof.
   - destruct (find_pool st s) as [p|]; [|intro E; apply ROk_inj in E; subst st'; exact H].
     destruct (pool_get st p) as [st1 [s1|]] eqn:Eg; pose proof (pool_get_oinv _ _ _ _ H Eg) as A; intro E; apply ROk_inj in E; subst st'; [|exact A].
     apply (OInv_frame st1); try reflexivity. exact A.
+  - intro E; apply ROk_inj in E; subst st'. apply (OInv_frame st); try reflexivity. exact H.
   - intro E; apply ROk_inj in E; subst st'. apply (OInv_frame st); try reflexivity. exact H.
 Qed.
 
